@@ -174,6 +174,17 @@ class Report:
             "distinct_nontrivial": len(set(o["name"] for o in self.obligations)),
             "rule": "one obligation per (function under contract, feasible path, ensures clause, matrix entry)",
         }
+        import re as _re
+        by = {}
+        for o in self.obligations:
+            parts = o["name"].split("/")
+            key = "/".join(parts[:3])
+            key = _re.sub(r"\[[01]*\]$", "", key)
+            st = by.setdefault(key, [0, 0])
+            st[0] += 1
+            if o["status"] == "discharged":
+                st[1] += 1
+        cov["obligations_by_function_scenario"] = {k: {"generated": v[0], "discharged": v[1]} for k, v in sorted(by.items())[:600]}
         cov.update(self.extra)
         ev = {
             "property_id": self.pid, "tier": self.tier, "seed": self.seed, "level": self.level,
